@@ -250,20 +250,26 @@ def _explore(out, tier, seed, facts, replay):
         except datagen.ImplExit:
             pass
     # aggregators along every dimension of arrays up to 4-D
-    for _ in range(40 if tier == "quick" else 400):
-        nd = rng.randint(1, 4)
-        shape = [rng.randint(1, 3) for _ in range(nd)]
+    # every aggregator x every number of dimensions x every axis (enumerated, not sampled); sizes 2-3 so that a
+    # transposed result is visible
+    combos = [(a, nd, k) for a in AGGS for nd in range(1, 5) for k in range(nd)]
+    if tier != "quick":
+        combos = combos * 4
+    for a, nd, k in combos:
+        shape = [rng.randint(2, 3) for _ in range(nd)]
         arr = np.array([rng.randint(-8, 8) / 2.0 for _ in range(int(np.prod(shape)))]).reshape(shape)
-        k = rng.randrange(nd)
-        a = rng.choice(AGGS)
         try:
             r = np.asarray(aggs[a](arr, axis=k))
         except Exception as e:
             out.violation("axis-exception:%s" % a, "aggregator %s(axis=%d) raised %r on shape %r" % (a, k, e, shape), {"aggregator": a, "shape": shape, "axis": k})
             continue
         nf += 1
-        it = np.nditer(r, flags=["multi_index"]) if r.shape else None
-        idxs = [()] if it is None else [ix for ix in np.ndindex(*r.shape)]
+        want_shape = tuple(shape[:k] + shape[k + 1:])
+        if tuple(r.shape) != want_shape:
+            out.violation("along-axis-shape:%s" % a, "aggregator %s along axis %d of an array of shape %r returns shape %r, expected %r"
+                          % (a, k, shape, tuple(r.shape), want_shape), {"aggregator": a, "shape": shape, "axis": k, "array": arr.tolist()})
+            continue
+        idxs = [()] if not r.shape else [ix for ix in np.ndindex(*r.shape)]
         for ix in idxs:
             full = list(ix[:k]) + [slice(None)] + list(ix[k:])
             fibre = [float(x) for x in arr[tuple(full)]]
